@@ -134,6 +134,18 @@ func realMain(run *hx.Run) {
 		bigBlocks(run, rng.Fork(uint64(7000+k)), k)
 	}
 	run.Notes["t_big_s"] = time.Since(t0).Seconds()
+	bhForks, senderFams := 2, 2
+	if run.Thorough() {
+		bhForks, senderFams = 12, 8
+	}
+	for k := 0; k < bhForks; k++ {
+		current = fmt.Sprintf("blockhash forks %d", k)
+		blockhashForks(run, rng.Fork(uint64(9500+k)), k)
+	}
+	for k := 0; k < senderFams; k++ {
+		current = fmt.Sprintf("sender-cache family %d", k)
+		senderCacheFamily(run, rng.Fork(uint64(9700+k)), k)
+	}
 	ownErrs := 2
 	if run.Thorough() {
 		ownErrs = 12
